@@ -310,6 +310,14 @@ class Parser:
 
         self.process_statement()
 
+        if self.new_statement and (final_line or not last_line):
+            # the line that starts the new statement also ends it (or ends the script)
+            self.new_statement = False
+            if final_line:
+                self.statement = self.statement[:-1]
+            self.set_default_flags_in_lexer()
+            self.process_statement()
+
     def process_statement(self) -> None:
         if not self.set_line and self.statement:
             self.parse_statement()
